@@ -40,6 +40,8 @@ def mtree(t, sub):
         return ('list',) + tuple(mtree(a, sub) for a in t[1])
     if k == 'map':
         return ('map',) + tuple(mtree(a, sub) for a in t[1])
+    if k == 'dcall':
+        return ('dcall', mtree(t[1], sub)) + tuple(mtree(a, sub) for a in t[2])
     if k == 'empty':
         return ('empty',)
     if k == 'nv':
@@ -74,6 +76,8 @@ def rtree(e, atoms):
         txt = repr(v) if isinstance(v, str) and not isinstance(e, ex.KeywordConstant) else \
             ('true' if v is True else 'false' if v is False else 'null' if v is None else str(v))
         return ('atom', atoms.get(txt, '?' + txt))
+    if isinstance(e, ex.Function) and e.name == '#call':
+        return ('dcall',) + tuple(rtree(a, atoms) for a in e.args)
     if isinstance(e, ex.Function):
         return ('call',) + tuple(rtree(a, atoms) for a in e.args)
     return ('?', type(e).__name__)
@@ -135,7 +139,7 @@ def real_factory(base, calls):
     import yaql
     from yaql import legacy
     from yaql.language import factory
-    f = legacy.YaqlFactory() if base == 'legacy' else yaql.YaqlFactory()
+    f = legacy.YaqlFactory() if base == 'legacy' else yaql.YaqlFactory(allow_delegates=(base == 'delegates'))
     for (existing, ebin, new, typ, grp) in calls:
         f.insert_operator(existing or None, bool(ebin), new, getattr(factory.OperatorType, TYPES[typ]), bool(grp))
     return f
@@ -337,6 +341,14 @@ def run(rep, tier, seed, keep=False):
         rep.tlc('Grammar/G+M all token sequences <= 3, standard table', r)
         ns, nsacc = replay_args(rep, dump, 'standard', engines, rng, 'standard-soup')
         rep.extra['argument_lists'] = {'standard': na, 'standard_accepted': nacc, 'legacy': nl, 'legacy_accepted': nlacc, 'soup': ns, 'soup_accepted': nsacc}
+        # engines created with allow_delegates: a value can be called; the parenthesis binds loosest
+        r, dump = gen(wd, 'dsoup', 'delegates', [()], [], [], [], 3, 0, ['atom'], mode='soup')
+        rep.tlc('Grammar/G+M all token sequences <= 3, delegates engine', r)
+        nd, ndacc = replay_args(rep, dump, 'delegates', engines, rng, 'delegates-soup')
+        r, dump = gen(wd, 'dargs', 'delegates', [()], ['+'] if quick else ['+', '->', '.'], ['-'], [], 3 if quick else 5, 0, ['atom'], mode='args')
+        rep.tlc('Grammar/G+M argument lists of called values, delegates engine', r)
+        nd2, nd2acc = replay_args(rep, dump, 'delegates', engines, rng, 'delegates')
+        rep.extra['delegates'] = {'soup': nd, 'soup_accepted': ndacc, 'argument_lists': nd2, 'argument_lists_accepted': nd2acc}
         # customised tables
         calls_list = insert_calls(tier, rng)
         r, dump = gen(wd, 'cust', 'standard', calls_list, ['*', '+', 'or', '->', '**', '~'], ['-', 'not', '~'], ['!', '~'], 2, 1,
